@@ -632,7 +632,7 @@ theorem sinv_withTmps {c : Ctx} {σ : MState} {k : Nat} {posts : List (String ×
 theorem wfHypT_of_static (ms : MacroSem) {c : Ctx} {k : Nat} {e : CExpr}
     (h : WFES (ctxWithTmps c k (postsOf e)) (unhyb k e) = true) :
     WFHypT ms (fun σ e => WFE σ e = true) c k e :=
-  fun _ _ hs ht hev => C05.WFE_of_static ms (sinv_withTmps hs ht) _ h hev
+  fun _ _ hs hi ht hev => C05.WFE_of_static ms (sinv_withTmps hs ht) hi _ h hev
 
 /-- `T n = e;` on the fragment, closed: all side conditions are decidable checks on the program text -/
 theorem decl_post_sim_closed {ms : MacroSem} (hms : MsOK ms) {c : Ctx} {env : CEnv}
@@ -672,7 +672,7 @@ def fragStmt : CStmt := .decl u32 "x" (some fragRhs)
 def fragState : MState := { (default : MState) with locals := [("i", .bv 32 7), ("j", .bv 32 3)] }
 
 theorem fragInv : C05.Inv fragCtx fragState fragState := by
-  refine ⟨C05.StRel.refl _, ⟨?_, ?_, ?_⟩, ?_⟩
+  refine ⟨C05.StRel.refl _, ⟨?_, ?_, ?_⟩, ?_, ?_, ?_⟩
   · intro n t v hn hv
     rcases C05.lookupS_two hv with ⟨rfl, rfl⟩ | ⟨rfl, rfl⟩
     · have : t = u32 := by revert hn; simp [fragCtx, lookupS]; exact fun h => h.symm
@@ -681,6 +681,7 @@ theorem fragInv : C05.Inv fragCtx fragState fragState := by
       subst this; exact ⟨_, rfl⟩
   · intro l hl; cases hl
   · intro ov ho; cases ho
+  · intro l hl; cases hl
   · intro n hn
     cases hl : lookupS n fragState.locals with
     | none => rfl
@@ -690,6 +691,7 @@ theorem fragInv : C05.Inv fragCtx fragState fragState := by
         rw [this] at hn; cases hn
       · have : isTmp "j" = false := by decide
         rw [this] at hn; cases hn
+  · intro l hl; cases hl
 
 theorem msOK_noMacros : MsOK noMacros :=
   fun _ _ _ => ⟨fun _ => rfl, fun _ _ h => by cases h⟩
@@ -835,10 +837,10 @@ theorem vcall_usr_sim_closed {ms : MacroSem} (hms : MsOK ms) {c : Ctx} {env : CE
     ∃ effIL σIL', eff = some effIL ∧ bare = [] ∧ ExecIL ms effIL σIL σIL' ∧ C05.Inv c σC' σIL' ∧
       st'.pending = st.pending := by
   refine vcall_usr_correct (C05.exprOK_of_C02 hms) henv hcomp hfrag hnop ?_ hsrc hinv hex
-  intro e he σ vC hs hev
+  intro e he σ vC hs hi hev
   simp only [List.mem_singleton] at he
   subst he
-  exact C05.WFE_of_static ms hs e hwf hev
+  exact C05.WFE_of_static ms hs hi e hwf hev
 
 /-! ### non-vacuity and witnesses for section 8 -/
 
